@@ -555,3 +555,60 @@ func H11_sequence() {
 	}
 	sv.Reach("ran-all")
 }
+
+// H11_thunks: conditionals inside the deferred arguments of host lazy
+// functions, themselves inside the branches of conditionals. The main program
+// and each deferred body have their own code buffer (each starting at offset
+// 0) and share one compiler: jump patching must never confuse an offset of one
+// buffer with the same offset of another. The family varies the lengths of
+// the outer condition and of the inner branches so that buffers of equal
+// length occur.
+func H11_thunks() {
+	e := NewEngine()
+	e.Register(val.LazyFun(types.Fun("lz1", []*types.Type{types.Num}, types.Num), func(args ...*val.Val) *val.Val { return args[0].Fun().Call() }))
+	e.Register(val.Fun(types.Fun("pair", []*types.Type{types.Num, types.Num}, types.Num), func(args ...*val.Val) *val.Val {
+		return val.Num(args[0].Num().V*100 + args[1].Num().V)
+	}))
+	conds := []string{"c", "!c", "!(!c)", "a > 0", "-a > -b"}
+	arms := []string{"a", "-a", "-a - b"}
+	outer := conds[sv.Choice("outer", len(conds))]
+	inner := conds[sv.Choice("inner", len(conds))]
+	x, y := arms[sv.Choice("then", len(arms))], arms[sv.Choice("else", len(arms))]
+	var src string
+	switch sv.Choice("shape", 4) {
+	case 0:
+		src = "if(" + outer + ", lz1(if(" + inner + ", " + x + ", " + y + ")), b)"
+	case 1:
+		src = "if(" + outer + ", b, lz1(if(" + inner + ", " + x + ", " + y + ")))"
+	case 2:
+		src = "pair(if(" + outer + ", a, b), lz1(if(" + inner + ", " + x + ", " + y + ")))"
+	default:
+		src = "if(" + outer + ", lz1(" + inner + " ? " + x + " : " + y + "), 0) + lz1(if(" + inner + ", " + y + ", " + x + "))"
+	}
+	tys := map[string]*types.Type{"a": tNum, "b": tNum, "c": tBool, "d": tBool}
+	names := []string{"a", "b", "c", "d"}
+	expr, _, cls := e.Front(src, tys, names)
+	sv.Assert("accepted", cls == "ok")
+	var prog vm.ZZProgram
+	ccls := sv.Outcome(func() { prog = vm.ZZCompileProgram(expr, e.Rt) })
+	sv.Assert("compiles", ccls == "ok")
+	why := verifyProgram(prog, 4)
+	if why != "" {
+		sv.Logf("%s: %s", src, why)
+	}
+	sv.Assert("bytecode-is-structurally-safe", why == "")
+	if why != "" {
+		return
+	}
+	// structure is what this family is about: concrete operands, both truth values
+	bv := func(x int) *val.Val {
+		if x == 1 {
+			return val.True
+		}
+		return val.False
+	}
+	vals := map[string]*val.Val{"a": val.Num(1.5), "b": val.Num(-2), "c": bv(sv.Choice("c", 2)), "d": val.True}
+	res, c := runAll(e, expr, vals, names)
+	agree(res, c)
+	sv.Reach("verified")
+}
